@@ -119,7 +119,7 @@ def redirect(ctx, prop, mod):
     mod.run(cmd, 3000)
     r = json.load(open(res))
     ctx.cov.update(strings=r['rows'], executions=r['executions'], oracle_checks=r['oracle_checks'], max_string_length=maxlen,
-                   flows=['password', 'password-json', 'otp', 'totp', 'sms', 'totp-q', 'sms-q', 'oauth2', 'oauth2-json'], exhaustive=True,
+                   flows=['password', 'password-json', 'otp', 'totp', 'sms', 'totp-q', 'sms-q', 'oauth2', 'oauth2-json', 'oauth2-error', 'oauth2-error-json', 'password-wrong'], exhaustive=True,
                    resolver_disagreements=r['resolver_disagreements'])
     ctx.cov['traces_validated_against_impl'] += r['executions']
     ctx.cov['samples'] = [x for x in rows if x['follows']][:2] + [x for x in rows if x['resolve'] == 'offsite'][:2]
@@ -288,6 +288,26 @@ def faults(ctx, prop, mod):
     ctx.cov['fault_sites'] = sorted('%s/%s#%d/%s' % c for c in combos)[:400]
     if evals == 0:
         mod.die('fault driver injected nothing (dead driver)')
+
+
+def faultscan(ctx, prop, mod):
+    """C17 under backend failures: the error paths log and store too. Random scenarios with injected failures
+    (a mail that could not be sent is still a secret the harness knows); every faulted step is scanned."""
+    plan = [('core', 40, 25, 0.5, False), ('full', 40, 25, 0.5, False)] if ctx.tier == 'quick' else \
+           [('core', 300, 30, 0.5, True), ('full', 300, 30, 0.5, True), ('twofa', 100, 25, 0.5, True)]
+    n = 0
+    for fam, num, depth, p, ex in plan:
+        tf = os.path.join(ctx.tmp, 'faultscan-%s.ndjson' % fam)
+        cmd = [ctx.bin, 'faults', '-family', fam, '-n', str(num), '-depth', str(depth), '-p', str(p), '-seed', str(ctx.seed), '-out', tf]
+        if ex:
+            cmd.append('-exhaustive')
+        mod.run(cmd, 3000)
+        ents, lines = mod.validate(ctx, tf)
+        n += sum(1 for l in lines if l['kind'] == 'ev' and l['e'].get('fault', 0) > 0 and l['resp'].get('faultHit'))
+        mod.judge(ctx, prop, ents, lines, 'faultscan:' + fam)
+        if ctx.violations:
+            break
+    ctx.cov['faulted_steps_scanned'] = n
 
 
 def noninterference(ctx, prop, mod):
